@@ -334,7 +334,22 @@ class Models:
         R(["BTreeMap::get", "HashMap::get"], m_map_get)
         R(["HashMap::get_mut"], m_map_get_mut)
         R(["BTreeMap::contains_key", "HashMap::contains_key"], m_map_contains)
-        R("HashMap::entry", lambda ex, st, fr, c, a, d, r: VStruct("Entry", [a[0], a[1]]))
+        R(["HashMap::entry", "BTreeMap::entry"], m_map_entry)
+        R(["Entry::or_insert_with", "Entry::or_insert_with_key"], m_entry_or_insert_with)
+        R("Entry::and_modify", m_entry_and_modify)
+        R("Entry::key", lambda ex, st, fr, c, a, d, r: _entry_parts(st, a[0])[1])
+        R(["OccupiedEntry::get", "OccupiedEntry::get_mut", "OccupiedEntry::into_mut"],
+          lambda ex, st, fr, c, a, d, r: VMapSlot(deref_ref(st, _entry_parts(st, a[0])[0]), key_term(ex, st, _entry_parts(st, a[0])[1])))
+        R("OccupiedEntry::key", lambda ex, st, fr, c, a, d, r: _entry_parts(st, a[0])[1])
+        R("VacantEntry::key", lambda ex, st, fr, c, a, d, r: _entry_parts(st, a[0])[1])
+        R("OccupiedEntry::insert", lambda ex, st, fr, c, a, d, r: m_occupied_update(ex, st, fr, c, a, d, r, True))
+        R(["OccupiedEntry::remove"], lambda ex, st, fr, c, a, d, r: m_occupied_update(ex, st, fr, c, a, d, r, False))
+        R("VacantEntry::insert", m_vacant_insert)
+        R("Option::insert", m_opt_insert)
+        R("Option::replace", m_opt_replace)
+        R("Option::get_or_insert_with", m_opt_get_or_insert_with)
+        R("Result::transpose", m_result_transpose)
+        R("Option::transpose", m_option_transpose)
         R("Entry::or_default", m_entry_or_default)
         R("Entry::or_insert", m_entry_or_insert)
         R(["BTreeMap::values", "HashMap::values", "BTreeMap::iter", "HashMap::iter",
@@ -1052,9 +1067,116 @@ def m_map_contains(ex, st, fr, c, a, d, r):
     return VBool(z3.Select(m.present, k))
 
 
+def _entry_parts(st, e):
+    """(map reference, key) of an Entry / OccupiedEntry / VacantEntry value in either representation"""
+    e = deref_all(st, e)
+    if isinstance(e, VEnum):
+        for pl in e.payloads.values():
+            if pl:
+                e = pl[0]
+                break
+    if isinstance(e, VStruct) and len(e.fields) >= 2:
+        return e.fields[0], e.fields[1]
+    raise Unsupported(f"map entry {e}")
+
+
+def m_map_entry(ex, st, fr, c, a, d, r):
+    """HashMap/BTreeMap::entry(k) -> Entry::Occupied(..) | Entry::Vacant(..) with a symbolic discriminant"""
+    m = the_map(st, a[0])
+    k = key_term(ex, st, a[1])
+    pres = z3.Select(m.present, k)
+    return VEnum("Entry", z3.If(pres, z3.IntVal(0), z3.IntVal(1)),
+                 {0: [VStruct("OccupiedEntry", [a[0], a[1]])], 1: [VStruct("VacantEntry", [a[0], a[1]])]})
+
+
+def m_occupied_update(ex, st, fr, c, a, d, r, insert):
+    """OccupiedEntry::insert(v) / remove(): returns the value that was stored"""
+    mapref, key = _entry_parts(st, a[0])
+    m = the_map(st, mapref)
+    k = key_term(ex, st, key)
+    old = shape_select(m, k)
+    if insert:
+        m_map_insert(ex, st, fr, c, [mapref, key, a[1]], d, r)
+    else:
+        m_map_remove(ex, st, fr, c, [mapref, key], d, r)
+    return old
+
+
+def m_vacant_insert(ex, st, fr, c, a, d, r):
+    mapref, key = _entry_parts(st, a[0])
+    m = the_map(st, mapref)
+    k = key_term(ex, st, key)
+    m_map_insert(ex, st, fr, c, [mapref, key, a[1]], d, r)
+    return VMapSlot(deref_ref(st, mapref), k)
+
+
+def m_entry_or_insert_with(ex, st, fr, c, a, d, r):
+    mapref, key = _entry_parts(st, a[0])
+    m = the_map(st, mapref)
+    k = key_term(ex, st, key)
+    outs = []
+    pres = z3.Select(m.present, k)
+    if ex.feasible(st.pc, z3.Not(pres)):
+        s2 = st.clone() if ex.feasible(st.pc, pres) else st
+        s2.pc.append(z3.Not(pres))
+
+        def after(s3, v):
+            m_map_insert(ex, s3, fr, c, [mapref, key, v], d, r)
+            return ex.finish_call(s3, d, r, VMapSlot(deref_ref(s3, mapref), k))
+        outs += ex.call_closure_then(s2, a[1], [], after) if hasattr(ex, "call_closure_then") else _unsupported("or_insert_with on an absent key")
+        if s2 is st:
+            return outs
+    st.pc.append(pres)
+    outs += ex.finish_call(st, d, r, VMapSlot(deref_ref(st, mapref), k))
+    return outs
+
+
+def _unsupported(msg):
+    raise Unsupported(msg)
+
+
+def m_entry_and_modify(ex, st, fr, c, a, d, r):
+    raise Unsupported("Entry::and_modify")
+
+
+def m_opt_insert(ex, st, fr, c, a, d, r):
+    ref = a[0]
+    st.store(ref, some(a[1]))
+    return VRef(ref.cell, ref.path + (("v", 1, 0),))
+
+
+def m_opt_replace(ex, st, fr, c, a, d, r):
+    ref = a[0]
+    old = st.load(ref)
+    st.store(ref, some(a[1]))
+    return old
+
+
+def m_opt_get_or_insert_with(ex, st, fr, c, a, d, r):
+    raise Unsupported("Option::get_or_insert_with")
+
+
+def m_result_transpose(ex, st, fr, c, a, d, r):
+    """Result<Option<T>, E> -> Option<Result<T, E>>"""
+    def on_ok(s, f):
+        inner = f[0]
+        return fork_enum(ex, s, inner, {0: lambda s2, g: ex.finish_call(s2, d, r, none()),
+                                        1: lambda s2, g: ex.finish_call(s2, d, r, some(ok(g[0])))})
+    return fork_enum(ex, st, a[0], {0: on_ok, 1: lambda s, f: ex.finish_call(s, d, r, some(err(f[0])))})
+
+
+def m_option_transpose(ex, st, fr, c, a, d, r):
+    """Option<Result<T, E>> -> Result<Option<T>, E>"""
+    def on_some(s, f):
+        inner = f[0]
+        return fork_enum(ex, s, inner, {0: lambda s2, g: ex.finish_call(s2, d, r, ok(some(g[0]))),
+                                        1: lambda s2, g: ex.finish_call(s2, d, r, err(g[0]))})
+    return fork_enum(ex, st, a[0], {0: lambda s, f: ex.finish_call(s, d, r, ok(none())), 1: on_some})
+
+
 def m_entry_or_default(ex, st, fr, c, a, d, r):
     e = a[0]
-    mapref, key = e.fields[0], e.fields[1]
+    mapref, key = _entry_parts(st, e)
     m = the_map(st, mapref)
     k = key_term(ex, st, key)
     # absent -> insert Default (0); present -> keep
@@ -1067,7 +1189,7 @@ def m_entry_or_default(ex, st, fr, c, a, d, r):
 
 def m_entry_or_insert(ex, st, fr, c, a, d, r):
     e = a[0]
-    mapref, key = e.fields[0], e.fields[1]
+    mapref, key = _entry_parts(st, e)
     m = the_map(st, mapref)
     k = key_term(ex, st, key)
     was = z3.Select(m.present, k)
